@@ -13,6 +13,7 @@ import (
 	"fmt"
 	"go/token"
 	"go/types"
+	"strings"
 
 	"golang.org/x/tools/go/ssa"
 )
@@ -196,4 +197,114 @@ func negCmp(op token.Token) token.Token {
 		return token.EQL
 	}
 	return op
+}
+
+// ---------------------------------------------------------------- BND-2
+
+func init() {
+	register(&Rule{
+		ID: "BND-2",
+		Doc: "Sibling walkers that receive the same index agree on what they hand to the children: when one function passes the same value as the forwarded index parameter of two or more recursive walkers " +
+			"(compact hands partialCompactStart to mergeSegStacks, which decides which segments are rewritten, and to spliceFooter, which decides which locations are retained), " +
+			"all of them forward to their recursive call the same kind of value - the raw parameter, or the parameter as bounded by their own list. " +
+			"If one forwards the clamped value and the other the raw one, a grandchild below a short child is spliced at two different points: segments in between are neither retained nor rewritten.",
+		Props: []string{"C07", "C11"},
+		Floor: 1,
+		Run:   ruleBnd2,
+	})
+}
+
+// forwardedIntParams: the integer parameters f passes to a call of itself, with the arguments passed.
+func forwardedIntParams(f *ssa.Function) map[*ssa.Parameter][]ssa.Value {
+	out := map[*ssa.Parameter][]ssa.Value{}
+	for idx, p := range f.Params {
+		bt, isBasic := p.Type().Underlying().(*types.Basic)
+		if !isBasic || bt.Info()&types.IsInteger == 0 {
+			continue
+		}
+		for _, k := range callsToFn(f, f) {
+			if idx >= len(k.Call.Args) {
+				continue
+			}
+			for _, og := range origins(k.Call.Args[idx]) {
+				if og == ssa.Value(p) {
+					out[p] = append(out[p], k.Call.Args[idx])
+					break
+				}
+			}
+		}
+	}
+	return out
+}
+
+func ruleBnd2(c *Ctx) []*Ob {
+	o := newObs(c, "BND-2")
+	type member struct {
+		f    *ssa.Function
+		p    *ssa.Parameter
+		kind string
+		pos  string
+	}
+	groups := map[string][]member{}
+	var order []string
+	for _, f := range c.Funcs {
+		fw := forwardedIntParams(f)
+		for p, args := range fw {
+			pidx := -1
+			for i, q := range f.Params {
+				if q == p {
+					pidx = i
+				}
+			}
+			kind := "raw"
+			for _, a := range args {
+				for _, og := range origins(a) {
+					if _, isLen := isBuiltinCall(og, "len"); isLen {
+						kind = "bounded by the walker's own list"
+					}
+				}
+			}
+			for _, s := range c.Callers(f) {
+				if s.Caller == f || root(s.Caller) == f {
+					continue
+				}
+				cc := s.Instr.Common()
+				if pidx >= len(cc.Args) {
+					continue
+				}
+				key := c.fname(s.Caller) + " passes " + accessPath(cc.Args[pidx])
+				if _, seen := groups[key]; !seen {
+					order = append(order, key)
+				}
+				groups[key] = append(groups[key], member{f, p, kind, c.pos(f.Pos())})
+			}
+		}
+	}
+	for _, key := range order {
+		ms := groups[key]
+		if len(ms) < 2 {
+			continue
+		}
+		agree := true
+		for _, m := range ms {
+			if m.kind != ms[0].kind {
+				agree = false
+			}
+		}
+		for _, m := range ms {
+			why := "all walkers fed by this value forward the index " + m.kind
+			if !agree {
+				var others []string
+				for _, x := range ms {
+					if x.f != m.f {
+						others = append(others, c.fname(x.f)+" forwards it "+x.kind)
+					}
+				}
+				why = "forwards the index " + m.kind + " to its children while " + strings.Join(others, ", ") +
+					" (" + key + " to all of them): below a child whose list is shorter than the index the walkers splice a grandchild at different points - segments in between are neither retained nor rewritten"
+			}
+			o.add(c.fname(m.f), "index "+m.p.Name()+" forwarded to the children like its siblings", m.pos, agree, why)
+		}
+	}
+	return o.list
 }
